@@ -124,7 +124,8 @@ def _getitem(x, key, orig_key):
         elif isinstance(ind, np.ndarray) and ind.ndim > 1:
             raise IndexError("Only one-dimensional iterable indices supported.")
 
-        reordered_key[i] = reordered_key[i].astype(x.indices.dtype, copy=False)
+        # flat positions are computed in intp: numba cannot type `uint[:] += int64` in compute_flat
+        reordered_key[i] = reordered_key[i].astype(np.intp, copy=False)
 
     reordered_key = List(reordered_key)
     shape = np.array(shape)
@@ -134,7 +135,7 @@ def _getitem(x, key, orig_key):
     rows = convert_to_flat(
         reordered_key[: x._axisptr],
         x._reordered_shape[: x._axisptr],
-        x.indices.dtype,
+        np.intp,
     )
 
     # convert all indices of uncompressed axes to a single array index
@@ -142,7 +143,7 @@ def _getitem(x, key, orig_key):
     cols = convert_to_flat(
         reordered_key[x._axisptr :],
         x._reordered_shape[x._axisptr :],
-        x.indices.dtype,
+        np.intp,
     )
 
     starts = x.indptr[:-1][rows]  # find the start and end of each of the rows
